@@ -5,7 +5,7 @@ CONSTANTS
   TTL = 2
   Lives = {2}
   Serial = {FALSE, TRUE}
-  Trashing = {TRUE}
+  Trashing = {TRUE, FALSE}
   WKinds = {"put", "touch"}
   TKinds = {"delete", "list_eq"}
   XKinds = {"none"}
